@@ -13,6 +13,7 @@ RULES = {
     "C15.R1": svrules.c15_r1_protocol,
     "C15.R2": svrules.c15_r2_units,
     "C15.R3": svrules.c15_r3_iter,
+    "C15.R4b": lambda ctx: svrules.fresh_views(ctx, "C15.R4b"),
     "C15.R4": lambda ctx: svrules.r5_monotone(ctx, "C15.R4"),
     "C15.R5": svrules.c15_r5_pf,
 }
